@@ -317,16 +317,26 @@ func GenWrite(r *rec.Rand, p Profile, present []TupleObs, stat func(string)) Op 
 	return op
 }
 
-// GenBulk generates a datastore-level request with more items than one SQL batch (100).
+// GenBulk generates a request with more items than one SQL batch (100) directly on the
+// datastore, or - through the command layer - with exactly 99, 100 or 101 items (the limit).
 func GenBulk(r *rec.Rand, present []TupleObs, mode int) Op {
 	op := Op{Kind: KindWrite, Mode: mode, OnDup: r.Intn(3), OnMiss: r.Intn(3)}
 	n := r.Range(95, 230)
 	if mode == 0 {
-		n = r.Range(98, 103)
+		n = r.Range(99, 101)
 	}
 	base := r.Intn(3) * 60
 	for i := 0; i < n; i++ {
 		k := Key{fmt.Sprintf("doc:b%d", base+i), "viewer", "user:a"}
+		if mode == 0 {
+			// one item per key, so that the request has exactly n items
+			if findPresent(present, k) != nil {
+				op.Dels = append(op.Dels, Item{Obj: k.Obj, Rel: k.Rel, User: k.User, Valid: true})
+			} else {
+				op.Wrs = append(op.Wrs, keyItem(k, validConds[r.Intn(2)*3]))
+			}
+			continue
+		}
 		if findPresent(present, k) != nil {
 			if r.Chance(3, 4) {
 				op.Dels = append(op.Dels, Item{Obj: k.Obj, Rel: k.Rel, User: k.User, Valid: true})
